@@ -474,6 +474,77 @@ class Ceremony:
                 c.lib_touched_after_edit = True
         self.check_copy(c, 'sign')
 
+    def op_grind(self):
+        """Single-signer wallet: look for a spend one of whose signatures is shorter than usual (r or s below 2**248,
+        about one signature in 130) by lowering the paid amount satoshi by satoshi; every candidate is built and signed
+        through the library's plain Transaction API from public keys.  The copy found is judged like every other copy
+        and then taken through serialize -> parse."""
+        ch, w = self.ch, self.w
+        if not self.single or getattr(self, 'ground', False):
+            return self.op_create()
+        party = self.parties[0]
+        ok, us = self.quiet(lambda: party['w'].utxos())
+        if not ok or not us:
+            return self.op_fund()
+        self.ground = True
+        us = us[:3]
+        by_addr = {}
+        for chg in (0, 1):
+            for idx in range(0, 6):
+                path = "m/%d'/%d'/0'/%d/%d" % (PURPOSE[self.wt], self.coin, chg, idx)
+                node = self.masters[0].derive(path)
+                by_addr[ref_pub_to_address(node.pub, self.wt, self.network)] = node
+        total = sum(u['value'] for u in us)
+        if any(u['address'] not in by_addr for u in us) or total < 50000:
+            return self.op_create()
+        budget = 150 if self.tier == 'quick' else 400
+        w.op('grind', n_in=len(us), budget=budget)
+
+        def build(a):
+            T = self.BT.Transaction(network=self.network, witness_type='legacy' if self.wt == 'legacy' else 'segwit')
+            nodes = []
+            for u in us:
+                n_ = by_addr[u['address']]
+                if n_ not in nodes:
+                    nodes.append(n_)
+                T.add_input(prev_txid=u['txid'], output_n=u['output_n'], keys=[n_.pub.hex()], value=u['value'],
+                            witness_type=self.wt, address=u['address'])
+            T.add_output(total - 3000 - a, address=self.ext_addr)
+            for n_ in nodes:
+                T.sign(self.BK.Key(n_.priv.to_bytes(32, 'big').hex(), network=self.network, compressed=True))
+            return T
+
+        def short_sig(raw):
+            rt = parse_tx(bytes(raw))
+            for vin in rt.vin:
+                items = list(vin.witness)
+                try:
+                    items += rscript.parse_script(vin.script_sig) if vin.script_sig else []
+                except Exception:
+                    pass
+                for b in items:
+                    if isinstance(b, bytes) and 9 <= len(b) <= 70 and b[0] == 0x30:
+                        return True
+            return False
+        found, a = None, 0
+        for a in range(budget):
+            ok, T = self.quiet(lambda: build(a))
+            if not ok:
+                w.probe('plain_transaction_not_built:%s' % type(T).__name__)
+                break
+            ok, raw = self.quiet(lambda: T.raw())
+            if ok and short_sig(raw):
+                found = T
+                break
+        w.outcome('ground', attempts=a + 1, found=found is not None)
+        if found is None:
+            return
+        w.probe('short_signature_spend_found')
+        c = Copy(found, 0, {0}, via=('created', 'plain', 'ground'))
+        self.copies.append(c)
+        self.check_copy(c, 'sign')
+        self.op_roundtrip(c)
+
     def add_holder(self, c):
         """WalletTransaction.sign(keys) also signs with the private keys the holding wallet has for the inputs."""
         if isinstance(c.t, self.BW.WalletTransaction) and c.holder != 'ext':
@@ -770,24 +841,25 @@ class Ceremony:
                     break
         elif kind == 'out_value':
             o = rt.vout[ch.index('w_o', len(rt.vout))]
-            o.value += ch.pick('w_dv', [1, -1, 1000])
+            o.value = 0 if (o.value and ch.coin('w_zero', 0.2)) else o.value + ch.pick('w_dv', [1, -1, 1000])
             done = o.value >= 0
         elif kind == 'sequence':
             vin = rt.vin[ch.index('w_in', len(rt.vin))]
-            vin.sequence = (vin.sequence - 1) & 0xffffffff
+            vin.sequence = 0 if (vin.sequence and ch.coin('w_zero', 0.3)) else (vin.sequence - 1) & 0xffffffff
             done = True
         elif kind == 'locktime':
-            rt.locktime = (rt.locktime + 1) & 0xffffffff
+            rt.locktime = 0 if (rt.locktime and ch.coin('w_zero', 0.3)) else (rt.locktime + 1) & 0xffffffff
             done = True
         elif kind == 'outpoint_zero_txid':
             rt.vin[ch.index('w_in', len(rt.vin))].prev_txid = b'\0' * 32
             done = True
         elif kind == 'outpoint_index':
             vin = rt.vin[ch.index('w_in', len(rt.vin))]
-            vin.vout = (vin.vout + 1) & 0xffffffff
+            vin.vout = 0 if (vin.vout and ch.coin('w_zero', 0.3)) else (vin.vout + 1) & 0xffffffff
             done = True
         elif kind == 'version':
-            rt.version = 1 if rt.version != 1 else 2
+            # 0 and values above 2 included: the parser has to keep whatever the four bytes say
+            rt.version = ch.pick('w_ver', [v for v in (0, 0, 1, 2, 3, 0x7fffffff) if v != rt.version])
             done = True
         if not done:
             w.outcome('tamper_skipped')
@@ -807,14 +879,15 @@ class Ceremony:
         c2 = Copy(t2, c.holder, set(c.signers), tampered=True, via=c.via + ('parsed',))
         c2.parsed = True
         c2.context_tampered, c2.resigned = c.context_tampered, c.resigned
+        c2.wire_raw = None if kind in ('sig_hashtype', 'sig_der_byte', 'pubkey_byte') else bytes.fromhex(raw2)
         self.copies.append(c2)
         w.outcome('parsed', cid=c2.cid)
         self.check_copy(c2, 'tamper:wire_' + kind)
 
-    def op_roundtrip(self):
+    def op_roundtrip(self, c=None):
         """serialize -> parse -> re-attach input values: the parsed copy must verify exactly like the reference says."""
         ch, w = self.ch, self.w
-        c = self.pick_copy()
+        c = c or self.pick_copy()
         if c is None:
             return
         w.op('roundtrip', cid=c.cid)
@@ -872,13 +945,15 @@ class Ceremony:
             vs.append(refnode.verify_input(rt, idx, spk, val))
         return vs, rt
 
-    def self_verdicts(self, t, claimed_amounts=False):
+    def self_verdicts(self, t, claimed_amounts=False, raw=None):
         """Reference verdict per input judged against the keys / script the input itself lists (the previous output
         is reconstructed from the unlocking data, the amount is the chain's if the outpoint exists, else the claimed
-        one).  This is what verify() can be held to when the library was never told the previous output."""
-        ok, raw = self.quiet(lambda: t.raw())
-        if not ok:
-            return None
+        one).  This is what verify() can be held to when the library was never told the previous output.  With `raw`
+        the bytes that arrived are judged instead of the library's serialization of what it parsed from them."""
+        if raw is None:
+            ok, raw = self.quiet(lambda: t.raw())
+            if not ok:
+                return None
         try:
             rt = parse_tx(bytes(raw))
         except Exception:
@@ -966,6 +1041,11 @@ class Ceremony:
         if ver:
             # signatures made after an edit of the outpoint / amount commit to what the copy then claimed
             sv = self.self_verdicts(t, claimed_amounts=c.resigned)
+            if stage.startswith('tamper:wire_') and getattr(c, 'wire_raw', None):
+                # an edit of a field the signatures commit to: the verdict is about the bytes that arrived (a parser
+                # that reads another value than the bytes say would otherwise be judged on its own reading)
+                sv = self.self_verdicts(t, claimed_amounts=c.resigned, raw=c.wire_raw)
+                w.probe('edited_wire_form_judged_on_arrived_bytes')
             bad = None
             if sv is None:
                 bad = 'not serializable'
@@ -1028,7 +1108,7 @@ class Ceremony:
                      ('mine', 1), ('tamper', 1), ('sign_round', 3), ('reopen', 2)]
         else:
             table = [('fund', 4), ('create', 6), ('sign', 7), ('handoff', 4), ('deliver', 1), ('tamper', 9), ('roundtrip', 5),
-                     ('send', 2), ('mine', 1), ('tamper_wire', 5), ('sign_round', 4)]
+                     ('send', 2), ('mine', 1), ('tamper_wire', 5), ('sign_round', 4), ('grind', 2)]
         kind = ch.weighted('op', table)
         getattr(self, 'op_' + kind)()
 
